@@ -22,6 +22,13 @@ EVID = os.path.join(VERIF, 'evidence')
 REPLAYS = os.path.join(VERIF, 'replays')
 KNOWN = os.path.join(VERIF, 'known_findings.json')
 NCPU = min(16, os.cpu_count() or 1)
+_SUFFIX = os.environ.get('VERIF_WORK_SUFFIX', '')
+if os.path.realpath(REPO) != '/repo' or _SUFFIX:
+    # runs against a scratch copy (mutation validation): never touch the committed evidence
+    _alt = os.path.join(WORK, 'alt', _SUFFIX or 'x')
+    EVID = os.path.join(_alt, 'evidence')
+    REPLAYS = os.path.join(_alt, 'replays')
+    WORK = os.path.join(_alt, 'work')
 
 EXIT_HELD, EXIT_VIOLATION, EXIT_INCONCLUSIVE = 0, 1, 2
 
